@@ -166,7 +166,7 @@ def _save_deps(config, tgt):
         glock.close()
 
 
-def _prune(keep, limit=64):
+def _prune(keep, limit=400):
     ents = []
     for n in os.listdir(CACHE):
         p = os.path.join(CACHE, n)
